@@ -182,7 +182,7 @@ OPNMIDI_EXPORT int opn2_getBank(OPN2_MIDIPlayer *device, const OPN2_BankId *idp,
 
 OPNMIDI_EXPORT int opn2_getBankId(OPN2_MIDIPlayer *device, const OPN2_Bank *bank, OPN2_BankId *id)
 {
-    if(!device || !bank)
+    if(!device || !bank || !id)
         return -1;
 
     Synth::BankMap::iterator it = Synth::BankMap::iterator::from_ptrs(bank->pointer);
@@ -209,7 +209,7 @@ OPNMIDI_EXPORT int opn2_removeBank(OPN2_MIDIPlayer *device, OPN2_Bank *bank)
 
 OPNMIDI_EXPORT int opn2_getFirstBank(OPN2_MIDIPlayer *device, OPN2_Bank *bank)
 {
-    if(!device)
+    if(!device || !bank)
         return -1;
 
     MidiPlayer *play = GET_MIDI_PLAYER(device);
@@ -226,7 +226,7 @@ OPNMIDI_EXPORT int opn2_getFirstBank(OPN2_MIDIPlayer *device, OPN2_Bank *bank)
 
 OPNMIDI_EXPORT int opn2_getNextBank(OPN2_MIDIPlayer *device, OPN2_Bank *bank)
 {
-    if(!device)
+    if(!device || !bank)
         return -1;
 
     MidiPlayer *play = GET_MIDI_PLAYER(device);
